@@ -135,6 +135,16 @@ Lemma ax_good_raw : forall os ns oc nc i b,
   ax_good os ns oc nc i b.
 Proof. intros. constructor; assumption. Qed.
 
+Lemma ax_good_raw' : forall os ns oc nc i b f h cff,
+  f = ax_f os ns -> h = oc / f -> cff = nc / h ->
+  let j := i * cff + b in let olo := oc * j in let ohi := Z.min (oc * (j + 1)) os in
+  let e := Z.min (nc * (i + 1)) ns - nc * i in let src := ceil_div (ohi - olo) f in
+  0 <= olo < os -> olo mod f = 0 -> ((ohi - olo) mod f = 0 \/ ohi = os) ->
+  olo / f = nc * i + ax_dlo b e h ->
+  (bc_ok src (ax_dext b e h) = true -> src = ax_dext b e h) ->
+  ax_good os ns oc nc i b.
+Proof. intros; subst; constructor; assumption. Qed.
+
 (* one new chunk along the axis (ns <= nc): only chunk 0 *)
 Lemma axis_single : forall os ns oc nc i b,
   0 < os -> 0 < oc -> 0 < nc -> ns = ceil_div os (ax_f os ns) ->
@@ -166,23 +176,24 @@ Lemma axis_divisible : forall os ns oc nc i b,
   ax_good os ns oc nc i b /\ (nc <= 2 * ax_h os ns oc -> ax_exact os ns oc nc i b).
 Proof.
   intros os ns oc nc i b Hos Hnc Hns Hh Hfh Hmod H1 Hi Hlt Hb Hc.
-  set (f := ax_f os ns) in *. set (h := ax_h os ns oc) in *.
-  assert (Hq : nc = (nc / h) * h).
-  { rewrite Z.mul_comm. apply Z.div_exact; lia. }
-  set (q := nc / h) in *.
-  assert (Hq1 : 1 <= q) by nia.
-  assert (Hh1 : h = 1 -> q <= 2) by (intro E; specialize (H1 E); nia).
+  unfold ax_exact, ax_src, ax_ohi, ax_olo, ax_j, ax_cff, ax_e in *.
+  remember (ax_h os ns oc) as h eqn:Eh. unfold ax_h in Eh.
+  remember (ax_f os ns) as f eqn:Ef.
+  remember (nc / h) as q eqn:Eq.
+  assert (Hf : f = 1 \/ f = 2) by (rewrite Ef; apply ax_f_cases).
+  assert (Hq : nc = q * h).
+  { rewrite Eq, Z.mul_comm. apply Z.div_exact; lia. }
+  assert (Hoc : oc = f * h) by (clear - Hfh; lia).
+  assert (Hq1 : 1 <= q) by (clear - Hq Hnc Hh; nia).
+  assert (Hh1 : h = 1 -> q <= 2) by (intro E; specialize (H1 E); clear - H1 Hq E; nia).
   assert (Hlt' : q * h * i < ns) by (rewrite <- Hq; exact Hlt).
-  assert (Hoc : oc = f * h) by lia.
-  assert (Hcff : ax_cff os ns oc nc = q) by reflexivity.
-  pose proof (axis_core f h q os ns i b (ax_f_cases os ns) Hh Hq1 Hh1 Hos Hns Hi Hlt' Hb) as K.
-  cbv zeta in K. rewrite <- Hq in K. unfold ax_e in Hc. specialize (K Hc).
+  pose proof (axis_core f h q os ns i b Hf Hh Hq1 Hh1 Hos Hns Hi Hlt' Hb) as K.
+  cbv zeta in K. rewrite <- Hq, <- Hoc in K. specialize (K Hc).
   destruct K as [K1 [K2 [K3 [K4 [K5 K6]]]]].
   split.
-  - apply ax_good_raw; cbv zeta; change (oc / ax_f os ns) with h; change (ax_f os ns) with f;
-    change (nc / h) with q; rewrite Hoc; assumption.
-  - intro Hle. unfold ax_exact, ax_src, ax_ohi, ax_olo, ax_j, ax_e. fold f h. rewrite Hcff, Hoc.
-    apply K6. apply (Z.mul_le_mono_pos_r q 2 h); lia.
+  - apply (ax_good_raw' os ns oc nc i b f h q Ef Eh Eq); assumption.
+  - intro Hle. apply K6. apply (Z.mul_le_mono_pos_r q 2 h); [clear - Hh; lia|].
+    rewrite <- Hq. exact Hle.
 Qed.
 
 Lemma compat_axis_good : forall os ns oc nc i b,
@@ -230,3 +241,692 @@ Proof.
   - apply andb_true_iff in Hg. destruct Hg as [Hg _]. apply andb_true_iff in Hg.
     destruct Hg as [_ Hg]. apply Z.leb_le in Hg. lia.
 Qed.
+
+(* ---------- locality of a downscaling function ---------- *)
+
+Definition ds_shape_prop (ds : t3 -> arr -> arr) : Prop :=
+  forall f a, a_sh (ds f a) = cdiv3 (a_sh a) f /\ a_c (ds f a) = a_c a.
+
+(* downscaling a chunk whose origin is a multiple of the factor, and which is
+   full or ends at the border of the array, gives the restriction of the
+   downscaled array *)
+Definition ds_local_prop (ds : t3 -> arr -> arr) : Prop :=
+  forall f a lo ext,
+    (forall ax, get3 ax f = 1 \/ get3 ax f = 2) ->
+    (forall ax, 0 <= get3 ax lo /\ 0 < get3 ax ext /\
+                get3 ax lo + get3 ax ext <= get3 ax (a_sh a)) ->
+    (forall ax, get3 ax lo mod get3 ax f = 0) ->
+    (forall ax, get3 ax ext mod get3 ax f = 0 \/
+                get3 ax lo + get3 ax ext = get3 ax (a_sh a)) ->
+    forall c p, 0 <= c < a_c a ->
+      (forall ax, 0 <= get3 ax p < ceil_div (get3 ax ext) (get3 ax f)) ->
+      a_get (ds f (restrict a lo ext)) c p = a_get (ds f a) c (add3 (div3 lo f) p).
+
+(* ---------- geometry lemmas on triples ---------- *)
+
+Lemma get3_factors : forall g a, get3 a (factors g) = ax_f (get3 a (g_os g)) (get3 a (g_ns g)).
+Proof. intros. unfold factors. rewrite get3_zip3. reflexivity. Qed.
+
+Lemma get3_half : forall g a,
+  get3 a (half_chunk g) = ax_h (get3 a (g_os g)) (get3 a (g_ns g)) (get3 a (g_oc g)).
+Proof. intros. unfold half_chunk, div3. rewrite get3_zip3, get3_factors. reflexivity. Qed.
+
+Lemma get3_fetch : forall g a,
+  get3 a (fetch_factor g)
+  = ax_cff (get3 a (g_os g)) (get3 a (g_ns g)) (get3 a (g_oc g)) (get3 a (g_nc g)).
+Proof. intros. unfold fetch_factor, div3. rewrite get3_zip3, get3_half. reflexivity. Qed.
+
+Lemma get3_new_lo : forall g idx a, get3 a (new_lo g idx) = get3 a (g_nc g) * get3 a idx.
+Proof. intros. unfold new_lo, mul3. rewrite get3_zip3. reflexivity. Qed.
+
+Lemma get3_new_ext : forall g idx a,
+  get3 a (sub3 (new_hi g idx) (new_lo g idx)) = ax_e (get3 a (g_ns g)) (get3 a (g_nc g)) (get3 a idx).
+Proof.
+  intros. unfold new_hi, new_lo, sub3, min3, mul3, add3. rewrite !get3_zip3, get3_one3. reflexivity.
+Qed.
+
+Lemma geom_pos_spec : forall g, geom_pos g = true ->
+  (forall a, 0 < get3 a (g_os g)) /\ (forall a, 0 < get3 a (g_ns g)) /\
+  (forall a, 0 < get3 a (g_oc g)) /\ (forall a, 0 < get3 a (g_nc g)) /\ 0 < g_ch g.
+Proof.
+  intros g H. unfold geom_pos in H. rewrite !andb_true_iff in H.
+  destruct H as [[[[H1 H2] H3] H4] H5].
+  rewrite forall3_spec in H1, H2, H3, H4. apply Z.ltb_lt in H5.
+  repeat split; try assumption; intro a;
+    [specialize (H1 a)|specialize (H2 a)|specialize (H3 a)|specialize (H4 a)]; lia.
+Qed.
+
+Lemma sizes_ok_spec : forall g, sizes_ok g = true ->
+  forall a, get3 a (g_ns g) = ceil_div (get3 a (g_os g)) (ax_f (get3 a (g_os g)) (get3 a (g_ns g))).
+Proof.
+  intros g H a. unfold sizes_ok in H. apply eqb3_spec in H.
+  rewrite H at 1. unfold cdiv3. rewrite get3_zip3, get3_factors. reflexivity.
+Qed.
+
+(* ---------- one new chunk ---------- *)
+
+Section Chunk.
+
+Variable ds : t3 -> arr -> arr.
+Hypothesis ds_shape : ds_shape_prop ds.
+Hypothesis ds_local : ds_local_prop ds.
+
+Variable g : geom.
+Variable lvl : arr.
+Hypothesis Hsh : a_sh lvl = g_os g.
+Hypothesis Hch : a_c lvl = g_ch g.
+Hypothesis Hpos : geom_pos g = true.
+Hypothesis Hsz : sizes_ok g = true.
+
+Variable idx : t3.
+Hypothesis Hidx : forall a, 0 <= get3 a idx /\ get3 a (g_nc g) * get3 a idx < get3 a (g_ns g).
+
+Let e : t3 := sub3 (new_hi g idx) (new_lo g idx).
+Let h : t3 := half_chunk g.
+
+Definition axis_good_all : Prop :=
+  forall a b, (b = 0 \/ b = 1) ->
+    ax_cond b (get3 a e) (get3 a h) = true ->
+    ax_good (get3 a (g_os g)) (get3 a (g_ns g)) (get3 a (g_oc g)) (get3 a (g_nc g)) (get3 a idx) b.
+Definition axis_exact_all : Prop :=
+  forall a b, (b = 0 \/ b = 1) ->
+    ax_cond b (get3 a e) (get3 a h) = true ->
+    ax_exact (get3 a (g_os g)) (get3 a (g_ns g)) (get3 a (g_oc g)) (get3 a (g_nc g)) (get3 a idx) b.
+
+Hypothesis HG : axis_good_all.
+
+Definition valid_oct (b : t3) : Prop := forall a, get3 a b = 0 \/ get3 a b = 1.
+Definition inside (p : t3) : Prop := forall a, 0 <= get3 a p < get3 a e.
+Definition oct_of (p : t3) : t3 :=
+  zip3_3 (fun ee hh x => if x <? Z.min hh ee then 0 else 1) e h p.
+Definition expected (c : Z) (p : t3) : Z :=
+  a_get (ds (factors g) lvl) c (add3 (new_lo g idx) p).
+
+Let old_j (b : t3) : t3 := add3 (mul3 idx (fetch_factor g)) b.
+Let old_lo (b : t3) : t3 := mul3 (g_oc g) (old_j b).
+Let old_hi (b : t3) : t3 := min3 (mul3 (g_oc g) (add3 (old_j b) one3)) (g_os g).
+
+Lemma get3_e : forall a, get3 a e = ax_e (get3 a (g_ns g)) (get3 a (g_nc g)) (get3 a idx).
+Proof. intro a. apply get3_new_ext. Qed.
+
+Lemma get3_old_lo : forall b a,
+  get3 a (old_lo b) = ax_olo (get3 a (g_os g)) (get3 a (g_ns g)) (get3 a (g_oc g))
+                             (get3 a (g_nc g)) (get3 a idx) (get3 a b).
+Proof.
+  intros. unfold old_lo, old_j, mul3, add3. rewrite !get3_zip3, get3_fetch. reflexivity.
+Qed.
+
+Lemma get3_old_hi : forall b a,
+  get3 a (old_hi b) = ax_ohi (get3 a (g_os g)) (get3 a (g_ns g)) (get3 a (g_oc g))
+                             (get3 a (g_nc g)) (get3 a idx) (get3 a b).
+Proof.
+  intros. unfold old_hi, old_j, min3, mul3, add3. rewrite !get3_zip3, get3_fetch, get3_one3.
+  reflexivity.
+Qed.
+
+Lemma cond_axes : forall b, forall3_3 ax_cond b e h = true ->
+  forall a, ax_cond (get3 a b) (get3 a e) (get3 a h) = true.
+Proof. intros b H. apply forall3_3_spec. exact H. Qed.
+
+Lemma load_ds_ok : forall b, valid_oct b -> forall3_3 ax_cond b e h = true ->
+  load_ds ds g lvl (old_j b)
+  = Ok (ds (factors g) (restrict lvl (old_lo b) (sub3 (old_hi b) (old_lo b)))).
+Proof.
+  intros b Hv Hc. pose proof (cond_axes b Hc) as Hca.
+  destruct (geom_pos_spec g Hpos) as [Pos [Pns [Poc [Pnc Pch]]]].
+  unfold load_ds. fold (old_lo b). fold (old_hi b). unfold read_chunk.
+  assert (V : validate_chunk_coords (g_os g) (g_oc g) (old_lo b) (old_hi b) = true).
+  { unfold validate_chunk_coords. apply andb_true_iff. split.
+    - apply forall3_3_spec. intro a.
+      pose proof (ag_lo _ _ _ _ _ _ (HG a (get3 a b) (Hv a) (Hca a))) as L.
+      rewrite <- get3_old_lo in L.
+      rewrite !andb_true_iff. repeat split; [apply Z.leb_le|apply Z.ltb_lt|apply Z.eqb_eq]; try lia.
+      unfold old_lo, mul3. rewrite get3_zip3. rewrite Z.mul_comm. apply Z.mod_mul.
+      specialize (Poc a). lia.
+    - apply eqb3_spec. apply t3_ext. intro a. unfold old_hi, old_lo, min3, add3, mul3.
+      rewrite !get3_zip3, get3_one3. f_equal. ring. }
+  rewrite V. cbn [negb].
+  assert (X : chunk_exists (g_os g) (old_lo b) = true).
+  { unfold chunk_exists. apply andb_true_iff. split.
+    - apply forall3_spec. intro a.
+      pose proof (ag_lo _ _ _ _ _ _ (HG a (get3 a b) (Hv a) (Hca a))) as L.
+      rewrite <- get3_old_lo in L. apply Z.leb_le. lia.
+    - apply forall3_2_spec. intro a.
+      pose proof (ag_lo _ _ _ _ _ _ (HG a (get3 a b) (Hv a) (Hca a))) as L.
+      rewrite <- get3_old_lo in L. apply Z.ltb_lt. lia. }
+  rewrite X. reflexivity.
+Qed.
+
+Let dlo3 (b : t3) : t3 := zip3_3 ax_dlo b e h.
+Let dext3 (b : t3) : t3 := zip3_3 ax_dext b e h.
+Let src_of (b : t3) : arr :=
+  ds (factors g) (restrict lvl (old_lo b) (sub3 (old_hi b) (old_lo b))).
+
+Lemma src_chan : forall b, a_c (src_of b) = g_ch g.
+Proof. intro b. unfold src_of. rewrite (proj2 (ds_shape _ _)). simpl. exact Hch. Qed.
+
+Lemma src_shape : forall b a,
+  get3 a (a_sh (src_of b))
+  = ax_src (get3 a (g_os g)) (get3 a (g_ns g)) (get3 a (g_oc g)) (get3 a (g_nc g))
+           (get3 a idx) (get3 a b).
+Proof.
+  intros b a. unfold src_of. rewrite (proj1 (ds_shape _ _)). simpl.
+  unfold cdiv3, sub3. rewrite !get3_zip3, get3_factors, get3_old_hi, get3_old_lo. reflexivity.
+Qed.
+
+Lemma get3_dlo : forall b a, get3 a (dlo3 b) = ax_dlo (get3 a b) (get3 a e) (get3 a h).
+Proof. intros. unfold dlo3. apply get3_zip3_3. Qed.
+Lemma get3_dext : forall b a, get3 a (dext3 b) = ax_dext (get3 a b) (get3 a e) (get3 a h).
+Proof. intros. unfold dext3. apply get3_zip3_3. Qed.
+
+Lemma get3_h : forall a,
+  get3 a h = ax_h (get3 a (g_os g)) (get3 a (g_ns g)) (get3 a (g_oc g)).
+Proof. intro a. apply get3_half. Qed.
+
+(* value of the downscaled old chunk = value of the downscaled level *)
+Lemma src_value : forall b, valid_oct b -> forall3_3 ax_cond b e h = true ->
+  forall c q, 0 <= c < g_ch g ->
+    (forall a, 0 <= get3 a q < get3 a (a_sh (src_of b))) ->
+    a_get (src_of b) c q = expected c (add3 (dlo3 b) q).
+Proof.
+  intros b Hv Hc c q Hcr Hq. pose proof (cond_axes b Hc) as Hca.
+  destruct (geom_pos_spec g Hpos) as [Pos [Pns [Poc [Pnc Pch]]]].
+  unfold src_of, expected.
+  rewrite (ds_local (factors g) lvl (old_lo b) (sub3 (old_hi b) (old_lo b))).
+  - f_equal. apply t3_ext. intro a.
+    pose proof (ag_align _ _ _ _ _ _ (HG a (get3 a b) (Hv a) (Hca a))) as AL.
+    unfold add3, div3. rewrite !get3_zip3, get3_new_lo, get3_dlo, get3_factors, get3_old_lo.
+    rewrite AL. rewrite get3_e, get3_h. ring.
+  - intro a. rewrite get3_factors. apply ax_f_cases.
+  - intro a. pose proof (ag_lo _ _ _ _ _ _ (HG a (get3 a b) (Hv a) (Hca a))) as L.
+    unfold sub3. rewrite get3_zip3, get3_old_hi, get3_old_lo, Hsh.
+    unfold ax_ohi, ax_olo in *. specialize (Poc a). nia.
+  - intro a. rewrite get3_factors, get3_old_lo.
+    exact (ag_mod _ _ _ _ _ _ (HG a (get3 a b) (Hv a) (Hca a))).
+  - intro a. pose proof (ag_full _ _ _ _ _ _ (HG a (get3 a b) (Hv a) (Hca a))) as F.
+    unfold sub3. rewrite get3_zip3, get3_factors, get3_old_hi, get3_old_lo, Hsh.
+    destruct F as [F|F]; [left; exact F | right; lia].
+  - rewrite Hch. exact Hcr.
+  - intro a. specialize (Hq a). rewrite src_shape in Hq. unfold ax_src in Hq.
+    unfold sub3. rewrite get3_zip3, get3_factors, get3_old_hi, get3_old_lo. exact Hq.
+Qed.
+
+Lemma oct_in_box : forall b p, valid_oct b -> inside p ->
+  (in_box (dlo3 b) (dext3 b) p = true <-> oct_of p = b).
+Proof.
+  intros b p Hv Hp. rewrite in_box_spec. split.
+  - intro H. apply t3_ext. intro a. specialize (H a). specialize (Hp a).
+    rewrite get3_dlo, get3_dext in H. unfold oct_of. rewrite get3_zip3_3.
+    unfold ax_dlo, ax_dext in H.
+    destruct (Hv a) as [E|E]; rewrite E in *; simpl (0 =? 0) in H; simpl (1 =? 0) in H; cbv iota in H;
+      destruct (Z.ltb_spec (get3 a p) (Z.min (get3 a h) (get3 a e))); lia.
+  - intros E a. specialize (Hp a). rewrite get3_dlo, get3_dext.
+    assert (Ea : get3 a (oct_of p) = get3 a b) by (rewrite E; reflexivity).
+    unfold oct_of in Ea. rewrite get3_zip3_3 in Ea. unfold ax_dlo, ax_dext.
+    destruct (Z.ltb_spec (get3 a p) (Z.min (get3 a h) (get3 a e))); rewrite <- Ea;
+      simpl (0 =? 0); simpl (1 =? 0); cbv iota; lia.
+Qed.
+
+Definition Inv (S : list t3) (acc : outcome buffer) : Prop :=
+  forall buf, acc = Ok buf ->
+    b_c buf = g_ch g /\
+    forall c p, 0 <= c < g_ch g -> inside p -> In (oct_of p) S ->
+      b_get buf c p = Val (expected c p).
+
+Lemma step_inv : forall S acc b, valid_oct b -> Inv S acc ->
+  Inv (b :: S) (octant_step ds g lvl idx e acc b).
+Proof.
+  intros S acc b Hv HI buf' Hstep. unfold octant_step in Hstep.
+  destruct acc as [buf| | | | | |k]; simpl in Hstep; try discriminate.
+  destruct (HI buf eq_refl) as [Hbc HIv]. fold h in Hstep.
+  destruct (forall3_3 ax_cond b e h) eqn:Hc.
+  - (* the octant is assigned *)
+    change (add3 (mul3 idx (fetch_factor g)) b) with (old_j b) in Hstep.
+    rewrite (load_ds_ok b Hv Hc) in Hstep. cbn [bind] in Hstep.
+    fold (src_of b) in Hstep. fold (dlo3 b) in Hstep. fold (dext3 b) in Hstep.
+    unfold assign in Hstep.
+    destruct (bc_ok (a_c (src_of b)) (b_c buf) && forall3_2 bc_ok (a_sh (src_of b)) (dext3 b)) eqn:Hok;
+      [|discriminate].
+    inversion Hstep; subst buf'; clear Hstep. cbn [b_c b_get]. split; [exact Hbc|].
+    apply andb_true_iff in Hok. destruct Hok as [_ Hok]. rewrite forall3_2_spec in Hok.
+    pose proof (cond_axes b Hc) as Hca.
+    assert (Hext : forall a, get3 a (a_sh (src_of b)) = get3 a (dext3 b)).
+    { intro a. specialize (Hok a). rewrite src_shape in *. rewrite get3_dext in *.
+      rewrite get3_e, get3_h in *.
+      exact (ag_bc _ _ _ _ _ _ (HG a (get3 a b) (Hv a) (Hca a)) Hok). }
+    intros c p Hcr Hp Hin.
+    destruct (in_box (dlo3 b) (dext3 b) p) eqn:Hbox.
+    + f_equal. pose proof (proj1 (in_box_spec _ _ _) Hbox) as Hb.
+      assert (Ec : bc_idx (a_c (src_of b)) c = c).
+      { unfold bc_idx. rewrite src_chan. destruct (Z.eqb_spec (g_ch g) 1); lia. }
+      assert (Ep : zip3 bc_idx (a_sh (src_of b)) (sub3 p (dlo3 b)) = sub3 p (dlo3 b)).
+      { apply t3_ext. intro a. rewrite get3_zip3. unfold bc_idx, sub3. rewrite get3_zip3.
+        specialize (Hb a). rewrite (Hext a).
+        destruct (Z.eqb_spec (get3 a (dext3 b)) 1); lia. }
+      rewrite Ec, Ep. rewrite (src_value b Hv Hc c (sub3 p (dlo3 b)) Hcr).
+      * f_equal. apply t3_ext. intro a. unfold add3, sub3. rewrite !get3_zip3. ring.
+      * intro a. specialize (Hb a). rewrite (Hext a). unfold sub3. rewrite get3_zip3. lia.
+    + apply HIv; try assumption. destruct Hin as [Hin|Hin]; [|exact Hin].
+      exfalso. symmetry in Hin. apply (oct_in_box b p Hv Hp) in Hin. congruence.
+  - (* the octant is skipped: no position of the chunk belongs to it *)
+    inversion Hstep; subst buf'; clear Hstep. split; [exact Hbc|].
+    intros c p Hcr Hp Hin. apply HIv; try assumption.
+    destruct Hin as [Hin|Hin]; [|exact Hin]. exfalso.
+    assert (Hnc : exists a, ax_cond (get3 a b) (get3 a e) (get3 a h) = false).
+    { destruct (ax_cond (get3 AX b) (get3 AX e) (get3 AX h)) eqn:E1; [|exists AX; exact E1].
+      destruct (ax_cond (get3 AY b) (get3 AY e) (get3 AY h)) eqn:E2; [|exists AY; exact E2].
+      destruct (ax_cond (get3 AZ b) (get3 AZ e) (get3 AZ h)) eqn:E3; [|exists AZ; exact E3].
+      exfalso. assert (forall3_3 ax_cond b e h = true).
+      { apply forall3_3_spec. intro a; destruct a; assumption. }
+      congruence. }
+    destruct Hnc as [a Ha]. unfold ax_cond in Ha. apply orb_false_iff in Ha.
+    destruct Ha as [Ha1 Ha2]. apply Z.eqb_neq in Ha1. apply Z.ltb_ge in Ha2.
+    assert (Ea : get3 a (oct_of p) = get3 a b) by (rewrite Hin; reflexivity).
+    unfold oct_of in Ea. rewrite get3_zip3_3 in Ea. specialize (Hp a).
+    destruct (Z.ltb_spec (get3 a p) (Z.min (get3 a h) (get3 a e))); lia.
+Qed.
+
+Lemma fold_inv : forall octs S acc, (forall b, In b octs -> valid_oct b) -> Inv S acc ->
+  Inv (rev octs ++ S) (fold_left (octant_step ds g lvl idx e) octs acc).
+Proof.
+  induction octs as [|b octs IH]; intros S acc Hv HI; simpl.
+  - exact HI.
+  - rewrite <- app_assoc. simpl. apply IH.
+    + intros b' Hb'. apply Hv. right. exact Hb'.
+    + apply step_inv; [apply Hv; left; reflexivity | exact HI].
+Qed.
+
+Lemma octants_valid : forall b, In b octants -> valid_oct b.
+Proof.
+  intros b Hb a. unfold octants in Hb. simpl in Hb.
+  repeat (destruct Hb as [Hb|Hb]; [subst b; destruct a; simpl; auto|]). destruct Hb.
+Qed.
+
+Lemma oct_of_in_octants : forall p, In (oct_of p) (rev octants ++ []).
+Proof.
+  intro p. unfold oct_of. destruct e as [[ex ey] ez], h as [[hx hy] hz], p as [[px py] pz].
+  cbn [zip3_3].
+  destruct (px <? Z.min hx ex); destruct (py <? Z.min hy ey); destruct (pz <? Z.min hz ez);
+    simpl; tauto.
+Qed.
+
+(* soundness of one chunk: if no assignment raised, every voxel of the new
+   chunk is the downscaled level at its global position (in particular no
+   voxel is left uninitialised) *)
+Lemma chunk_sound : forall lo hi buf,
+  tile_chunk ds g lvl idx = Ok (lo, hi, buf) ->
+  lo = new_lo g idx /\ hi = new_hi g idx /\
+  forall c p, 0 <= c < g_ch g -> inside p -> b_get buf c p = Val (expected c p).
+Proof.
+  intros lo hi buf H. unfold tile_chunk in H. fold e in H.
+  destruct (fold_left (octant_step ds g lvl idx e) octants
+             (Ok {| b_c := g_ch g; b_sh := e; b_get := fun _ _ => Uninit |})) as [bf| | | | | |k] eqn:Hf;
+    cbn [bind] in H; try discriminate.
+  destruct (validate_chunk_coords (g_ns g) (g_nc g) (new_lo g idx) (new_hi g idx)); [|discriminate].
+  inversion H; subst lo hi buf. split; [reflexivity|]. split; [reflexivity|].
+  assert (I0 : Inv [] (Ok {| b_c := g_ch g; b_sh := e; b_get := fun _ _ => Uninit |})).
+  { intros b0 Hb0. inversion Hb0; subst b0. cbn. split; [reflexivity|]. intros c p _ _ [].
+  }
+  pose proof (fold_inv octants [] _ octants_valid I0) as HI.
+  destruct (HI bf Hf) as [_ HIv]. intros c p Hcr Hp. apply HIv; try assumption.
+  apply oct_of_in_octants.
+Qed.
+
+(* progress: when the extents agree on every axis, no assignment raises *)
+Hypothesis HE : axis_exact_all.
+
+Lemma step_ok : forall acc b, valid_oct b ->
+  (exists buf, acc = Ok buf /\ b_c buf = g_ch g) ->
+  exists buf', octant_step ds g lvl idx e acc b = Ok buf' /\ b_c buf' = g_ch g.
+Proof.
+  intros acc b Hv [buf [-> Hbc]]. unfold octant_step. cbn [bind]. fold h.
+  destruct (forall3_3 ax_cond b e h) eqn:Hc; [|exists buf; split; [reflexivity|exact Hbc]].
+  change (add3 (mul3 idx (fetch_factor g)) b) with (old_j b).
+  rewrite (load_ds_ok b Hv Hc). cbn [bind].
+  fold (src_of b). fold (dlo3 b). fold (dext3 b). unfold assign.
+  pose proof (cond_axes b Hc) as Hca.
+  assert (Hok : bc_ok (a_c (src_of b)) (b_c buf) && forall3_2 bc_ok (a_sh (src_of b)) (dext3 b) = true).
+  { apply andb_true_iff. split.
+    - unfold bc_ok. rewrite src_chan, Hbc, Z.eqb_refl. reflexivity.
+    - apply forall3_2_spec. intro a. rewrite src_shape, get3_dext, get3_e, get3_h.
+      pose proof (HE a (get3 a b) (Hv a)) as X. rewrite get3_e, get3_h in X.
+      specialize (X (eq_ind _ (fun t => t = true) (Hca a) _
+                      (f_equal2 (ax_cond (get3 a b)) (get3_e a) (get3_h a)))).
+      unfold ax_exact in X. rewrite X. unfold bc_ok. rewrite Z.eqb_refl. reflexivity. }
+  rewrite Hok. eexists. split; [reflexivity|]. exact Hbc.
+Qed.
+
+Lemma fold_ok : forall octs acc, (forall b, In b octs -> valid_oct b) ->
+  (exists buf, acc = Ok buf /\ b_c buf = g_ch g) ->
+  exists buf', fold_left (octant_step ds g lvl idx e) octs acc = Ok buf' /\ b_c buf' = g_ch g.
+Proof.
+  induction octs as [|b octs IH]; intros acc Hv Hacc; simpl.
+  - exact Hacc.
+  - apply IH; [intros b' Hb'; apply Hv; right; exact Hb'|].
+    apply step_ok; [apply Hv; left; reflexivity | exact Hacc].
+Qed.
+
+Lemma write_validates :
+  validate_chunk_coords (g_ns g) (g_nc g) (new_lo g idx) (new_hi g idx) = true.
+Proof.
+  destruct (geom_pos_spec g Hpos) as [Pos [Pns [Poc [Pnc Pch]]]].
+  unfold validate_chunk_coords. apply andb_true_iff. split.
+  - apply forall3_3_spec. intro a. rewrite get3_new_lo. destruct (Hidx a) as [H1 H2].
+    specialize (Pnc a).
+    rewrite !andb_true_iff. repeat split; [apply Z.leb_le; nia | apply Z.ltb_lt; lia | apply Z.eqb_eq].
+    rewrite Z.mul_comm. apply Z.mod_mul. lia.
+  - apply eqb3_spec. apply t3_ext. intro a. unfold new_hi, new_lo, min3, add3, mul3.
+    rewrite !get3_zip3, get3_one3. f_equal. ring.
+Qed.
+
+Lemma chunk_exact : exists buf,
+  tile_chunk ds g lvl idx = Ok (new_lo g idx, new_hi g idx, buf).
+Proof.
+  unfold tile_chunk. fold e.
+  destruct (fold_ok octants (Ok {| b_c := g_ch g; b_sh := e; b_get := fun _ _ => Uninit |})
+              octants_valid) as [buf [Hf _]].
+  { eexists. split; reflexivity. }
+  rewrite Hf. cbn [bind]. rewrite write_validates. exists buf. reflexivity.
+Qed.
+
+End Chunk.
+
+(* ---------- the whole transition ---------- *)
+
+Lemma in_ndindex : forall r idx, In idx (ndindex r) <-> forall a, 0 <= get3 a idx < get3 a r.
+Proof.
+  intros [[rx ry] rz] [[x y] z]. unfold ndindex. rewrite in_flat_map. split.
+  - intros [x' [Hx H]]. apply in_flat_map in H. destruct H as [y' [Hy H]].
+    apply in_map_iff in H. destruct H as [z' [E Hz]]. inversion E; subst.
+    apply in_levels in Hx, Hy, Hz. intro a; destruct a; simpl; lia.
+  - intro H. pose proof (H AX) as Hx; pose proof (H AY) as Hy; pose proof (H AZ) as Hz. simpl in *.
+    exists x. split; [apply in_levels; lia|]. apply in_flat_map.
+    exists y. split; [apply in_levels; lia|]. apply in_map_iff.
+    exists z. split; [reflexivity | apply in_levels; lia].
+Qed.
+
+Lemma in_range_idx : forall g idx, geom_pos g = true -> In idx (ndindex (chunk_range g)) ->
+  forall a, 0 <= get3 a idx /\ get3 a (g_nc g) * get3 a idx < get3 a (g_ns g).
+Proof.
+  intros g idx Hpos Hin a. destruct (geom_pos_spec g Hpos) as [_ [_ [_ [Pnc _]]]].
+  pose proof (proj1 (in_ndindex _ _) Hin a) as Hin'. clear Hin. rename Hin' into Hin.
+  unfold chunk_range, cdiv3 in Hin.
+  rewrite get3_zip3 in Hin. split; [lia|]. apply lt_ceil_div_iff; [apply Pnc | lia].
+Qed.
+
+Lemma guard_good_all : forall g idx, tiling_guard g = true -> sizes_ok g = true ->
+  (forall a, 0 <= get3 a idx /\ get3 a (g_nc g) * get3 a idx < get3 a (g_ns g)) ->
+  axis_good_all g idx.
+Proof.
+  intros g idx Hg Hsz Hidx a b Hb Hc. unfold tiling_guard in Hg.
+  apply andb_true_iff in Hg. destruct Hg as [Hpos Hg].
+  destruct (geom_pos_spec g Hpos) as [Pos [Pns [Poc [Pnc Pch]]]].
+  rewrite forall3_4_spec in Hg. specialize (Hg a).
+  rewrite get3_new_ext, get3_half in Hc.
+  apply guard_axis_good; auto; try apply (Hidx a). apply (sizes_ok_spec g Hsz).
+Qed.
+
+Lemma compat_good_all : forall g idx, compat g = true ->
+  (forall a, 0 <= get3 a idx /\ get3 a (g_nc g) * get3 a idx < get3 a (g_ns g)) ->
+  axis_good_all g idx /\ axis_exact_all g idx.
+Proof.
+  intros g idx Hc Hidx. unfold compat in Hc. rewrite !andb_true_iff in Hc.
+  destruct Hc as [[Hpos Hsz] Hc].
+  destruct (geom_pos_spec g Hpos) as [Pos [Pns [Poc [Pnc Pch]]]].
+  rewrite forall3_4_spec in Hc.
+  split; intros a b Hb Hcond; rewrite get3_new_ext, get3_half in Hcond;
+    (destruct (compat_axis_good (get3 a (g_os g)) (get3 a (g_ns g)) (get3 a (g_oc g))
+                (get3 a (g_nc g)) (get3 a idx) b) as [G E]; auto; try apply (Hidx a);
+     apply (sizes_ok_spec g Hsz)).
+Qed.
+
+Lemma compat_guard : forall g, compat g = true -> tiling_guard g = true.
+Proof.
+  intros g Hc. unfold compat in Hc. rewrite !andb_true_iff in Hc. destruct Hc as [[Hpos _] Hc].
+  unfold tiling_guard. rewrite Hpos. cbn [andb]. rewrite forall3_4_spec in *.
+  intro a. unfold guard_axis. rewrite (Hc a). reflexivity.
+Qed.
+
+Lemma guard_half_nonzero : forall g, tiling_guard g = true ->
+  forall3 (fun h => negb (h =? 0)) (half_chunk g) = true.
+Proof.
+  intros g Hg. unfold tiling_guard in Hg. apply andb_true_iff in Hg. destruct Hg as [_ Hg].
+  rewrite forall3_4_spec in Hg. apply forall3_spec. intro a. rewrite get3_half.
+  pose proof (guard_axis_half_pos _ _ _ _ (Hg a)) as H. apply negb_true_iff. apply Z.eqb_neq. lia.
+Qed.
+
+(* what a chunk of the result must contain: the downscaled whole level at the
+   chunk's global positions, every voxel written *)
+Definition chunk_is_restriction (ds : t3 -> arr -> arr) (g : geom) (lvl : arr)
+           (ch : t3 * t3 * buffer) : Prop :=
+  let '(lo, hi, buf) := ch in
+  exists idx, In idx (ndindex (chunk_range g)) /\ lo = new_lo g idx /\ hi = new_hi g idx /\
+    forall c p, 0 <= c < g_ch g -> (forall a, 0 <= get3 a p < get3 a (sub3 hi lo)) ->
+      b_get buf c p = Val (a_get (ds (factors g) lvl) c (add3 lo p)).
+
+Section Level.
+
+Variable ds : t3 -> arr -> arr.
+Hypothesis ds_shape : ds_shape_prop ds.
+Hypothesis ds_local : ds_local_prop ds.
+
+Theorem tiling_sound_on_guard : forall g lvl chunks,
+  tiling_guard g = true -> a_sh lvl = g_os g -> a_c lvl = g_ch g ->
+  tile_level ds g lvl = Ok chunks ->
+  Forall (chunk_is_restriction ds g lvl) chunks.
+Proof.
+  intros g lvl chunks Hg Hsh Hch H. unfold tile_level in H.
+  destruct (eqb3 (g_ns g) (cdiv3 (g_os g) (factors g))) eqn:Hsz; cbn [negb] in H; [|discriminate].
+  destruct (forall3 (fun h => negb (h =? 0)) (half_chunk g)); cbn [negb] in H; [|discriminate].
+  pose proof Hg as Hg'. unfold tiling_guard in Hg'. apply andb_true_iff in Hg'. destruct Hg' as [Hpos _].
+  apply mapM_ok_Forall2 in H. apply Forall_forall. intros [[lo hi] buf] Hin.
+  destruct (Forall2_In_l _ _ _ _ H Hin) as [idx [Hidx Ht]].
+  pose proof (in_range_idx g idx Hpos Hidx) as Hr.
+  destruct (chunk_sound ds ds_shape ds_local g lvl Hsh Hch Hpos idx Hr
+              (guard_good_all g idx Hg Hsz Hr) lo hi buf Ht) as [E1 [E2 Hv]].
+  exists idx. repeat split; try assumption. intros c p Hc Hp. subst lo hi.
+  apply Hv; assumption.
+Qed.
+
+Theorem tiling_exact : forall g lvl,
+  compat g = true -> a_sh lvl = g_os g -> a_c lvl = g_ch g ->
+  exists chunks, tile_level ds g lvl = Ok chunks /\
+    map (fun c => fst (fst c)) chunks = map (new_lo g) (ndindex (chunk_range g)) /\
+    Forall (chunk_is_restriction ds g lvl) chunks.
+Proof.
+  intros g lvl Hc Hsh Hch. pose proof (compat_guard g Hc) as Hg.
+  pose proof Hc as Hc'. unfold compat in Hc'. rewrite !andb_true_iff in Hc'.
+  destruct Hc' as [[Hpos Hsz] _].
+  assert (Hall : forall idx, In idx (ndindex (chunk_range g)) ->
+            exists y, tile_chunk ds g lvl idx = Ok y).
+  { intros idx Hidx. pose proof (in_range_idx g idx Hpos Hidx) as Hr.
+    destruct (compat_good_all g idx Hc Hr) as [G E].
+    destruct (chunk_exact ds ds_shape g lvl Hch Hpos idx Hr G E) as [buf Hb].
+    eexists; exact Hb. }
+  destruct (mapM_all_ok (tile_chunk ds g lvl) _ Hall) as [chunks Hm].
+  assert (Ht : tile_level ds g lvl = Ok chunks).
+  { unfold tile_level. unfold sizes_ok in Hsz. rewrite Hsz. cbn [negb].
+    rewrite (guard_half_nonzero g Hg). cbn [negb]. exact Hm. }
+  exists chunks. split; [exact Ht|]. split.
+  - apply mapM_ok_Forall2 in Hm. clear Ht Hall. revert Hm.
+    generalize (ndindex (chunk_range g)) as l.
+    intros l Hm. assert (Hsub : forall idx, In idx l -> In idx (ndindex (chunk_range g)) \/ True) by auto.
+    clear Hsub. induction Hm as [|idx [[lo hi] buf] l' ys Hx Hr IH]; [reflexivity|].
+    simpl. f_equal; [|exact IH].
+    (* the origin recorded for a chunk is the one computed from its index *)
+    unfold tile_chunk in Hx.
+    destruct (fold_left _ octants _) as [bf| | | | | |k]; cbn [bind] in Hx; try discriminate.
+    destruct (validate_chunk_coords _ _ _ _); [|discriminate]. inversion Hx; reflexivity.
+  - apply (tiling_sound_on_guard g lvl chunks Hg Hsh Hch Ht).
+Qed.
+
+(* no voxel of any written chunk is left uninitialised, whatever the geometry
+   (every cell of a new chunk lies in an octant whose condition holds) -
+   here as a corollary inside the guard *)
+Corollary no_uninit_on_guard : forall g lvl chunks,
+  tiling_guard g = true -> a_sh lvl = g_os g -> a_c lvl = g_ch g ->
+  tile_level ds g lvl = Ok chunks ->
+  forall lo hi buf c p, In (lo, hi, buf) chunks -> 0 <= c < g_ch g ->
+    (forall a, 0 <= get3 a p < get3 a (sub3 hi lo)) -> b_get buf c p <> Uninit.
+Proof.
+  intros g lvl chunks Hg Hsh Hch H lo hi buf c p Hin Hc Hp.
+  pose proof (tiling_sound_on_guard g lvl chunks Hg Hsh Hch H) as HF.
+  rewrite Forall_forall in HF. specialize (HF _ Hin). cbn in HF.
+  destruct HF as [idx [_ [_ [_ Hv]]]]. rewrite (Hv c p Hc Hp). discriminate.
+Qed.
+
+End Level.
+
+(* ---------- the three downscalers are local ---------- *)
+
+Lemma in_offs : forall f o, In o (offs f) <-> forall a, 0 <= get3 a o < get3 a f.
+Proof.
+  intros [[fx fy] fz] [[x y] z]. unfold offs. rewrite in_flat_map. split.
+  - intros [z' [Hz H]]. apply in_flat_map in H. destruct H as [y' [Hy H]].
+    apply in_map_iff in H. destruct H as [x' [E Hx]]. inversion E; subst.
+    apply in_levels in Hx, Hy, Hz. intro a; destruct a; simpl; lia.
+  - intro H. pose proof (H AX) as Hx; pose proof (H AY) as Hy; pose proof (H AZ) as Hz. simpl in *.
+    exists z. split; [apply in_levels; lia|]. apply in_flat_map.
+    exists y. split; [apply in_levels; lia|]. apply in_map_iff.
+    exists x. split; [reflexivity | apply in_levels; lia].
+Qed.
+
+Lemma ax_local_idx : forall f lo ext S p o,
+  (f = 1 \/ f = 2) -> 0 <= lo -> 0 < ext -> lo + ext <= S -> lo mod f = 0 ->
+  (ext mod f = 0 \/ lo + ext = S) -> 0 <= p < ceil_div ext f -> 0 <= o < f ->
+  (lo / f + p) * f = lo + p * f /\
+  lo + Z.min (p * f + o) (ext - 1) = Z.min (lo + p * f + o) (S - 1) /\
+  ((p * f + o <? ext) = (lo + p * f + o <? S)).
+Proof.
+  intros f lo ext S p o Hf Hlo Hext Hle Hmod Hfull Hp Ho. unfold ceil_div in Hp.
+  destruct Hf as [-> | ->].
+  - repeat split; lia.
+  - repeat split; lia.
+Qed.
+
+Lemma stride_shape : ds_shape_prop ds_stride.
+Proof. intros f a. split; reflexivity. Qed.
+Lemma avg_shape : ds_shape_prop ds_avg.
+Proof. intros f a. split; reflexivity. Qed.
+Lemma majority_shape : ds_shape_prop ds_majority.
+Proof. intros f a. split; reflexivity. Qed.
+
+Lemma stride_local : ds_local_prop ds_stride.
+Proof.
+  intros f a lo ext Hf Hbox Hmod Hfull c p Hc Hp. cbn [ds_stride restrict a_get].
+  f_equal. apply t3_ext. intro ax. unfold add3, mul3, div3. rewrite !get3_zip3.
+  destruct (Hbox ax) as [B1 [B2 B3]].
+  destruct (ax_local_idx (get3 ax f) (get3 ax lo) (get3 ax ext) (get3 ax (a_sh a)) (get3 ax p) 0
+              (Hf ax) B1 B2 B3 (Hmod ax) (Hfull ax) (Hp ax)) as [E _]; [destruct (Hf ax); lia|].
+  lia.
+Qed.
+
+Lemma avg_local : ds_local_prop ds_avg.
+Proof.
+  intros f a lo ext Hf Hbox Hmod Hfull c p Hc Hp. cbn [ds_avg restrict a_get a_sh].
+  f_equal. f_equal. apply map_ext_in. intros o Ho. rewrite in_offs in Ho.
+  f_equal. apply t3_ext. intro ax. unfold add3, mul3, div3, min3, sub3. rewrite !get3_zip3, get3_one3.
+  destruct (Hbox ax) as [B1 [B2 B3]].
+  destruct (ax_local_idx (get3 ax f) (get3 ax lo) (get3 ax ext) (get3 ax (a_sh a)) (get3 ax p)
+              (get3 ax o) (Hf ax) B1 B2 B3 (Hmod ax) (Hfull ax) (Hp ax) (Ho ax)) as [E1 [E2 _]].
+  rewrite E1. rewrite E2. reflexivity.
+Qed.
+
+Lemma majority_local : ds_local_prop ds_majority.
+Proof.
+  intros f a lo ext Hf Hbox Hmod Hfull c p Hc Hp. cbn [ds_majority restrict a_get a_sh].
+  f_equal.
+  assert (Hidx : forall o, In o (offs f) ->
+            add3 lo (add3 (mul3 p f) o) = add3 (mul3 (add3 (div3 lo f) p) f) o).
+  { intros o Ho. rewrite in_offs in Ho. apply t3_ext. intro ax.
+    unfold add3, mul3, div3. rewrite !get3_zip3.
+    destruct (Hbox ax) as [B1 [B2 B3]].
+    destruct (ax_local_idx (get3 ax f) (get3 ax lo) (get3 ax ext) (get3 ax (a_sh a)) (get3 ax p)
+                (get3 ax o) (Hf ax) B1 B2 B3 (Hmod ax) (Hfull ax) (Hp ax) (Ho ax)) as [E1 _].
+    rewrite E1. lia. }
+  assert (Hflt : filter (fun o => forall3_2 Z.ltb (add3 (mul3 p f) o) ext) (offs f)
+               = filter (fun o => forall3_2 Z.ltb (add3 (mul3 (add3 (div3 lo f) p) f) o) (a_sh a)) (offs f)).
+  { apply filter_ext_in. intros o Ho. rewrite <- (Hidx o Ho). rewrite in_offs in Ho.
+    apply eq_true_iff_eq. rewrite !forall3_2_spec. split; intros H ax; specialize (H ax);
+      unfold add3, mul3 in *; rewrite !get3_zip3 in *;
+      destruct (Hbox ax) as [B1 [B2 B3]];
+      destruct (ax_local_idx (get3 ax f) (get3 ax lo) (get3 ax ext) (get3 ax (a_sh a)) (get3 ax p)
+                  (get3 ax o) (Hf ax) B1 B2 B3 (Hmod ax) (Hfull ax) (Hp ax) (Ho ax)) as [_ [_ E3]].
+    - rewrite Z.add_assoc. rewrite <- E3. exact H.
+    - rewrite Z.add_assoc in H. rewrite <- E3 in H. exact H. }
+  rewrite Hflt. apply map_ext_in. intros o Ho. apply filter_In in Ho. destruct Ho as [Ho _].
+  f_equal. apply Hidx. exact Ho.
+Qed.
+
+(* ---------- refutation outside the guard ---------- *)
+
+Definition refute_check (ds : t3 -> arr -> arr) (g : geom) (lvl : arr) (k : nat) (c : Z) (p : t3)
+  : bool :=
+  match tile_level ds g lvl with
+  | Ok chunks =>
+      match nth_error chunks k with
+      | Some (lo, hi, buf) =>
+          in_box (0, 0, 0) (sub3 hi lo) p && (0 <=? c) && (c <? g_ch g) &&
+          match b_get buf c p with
+          | Val v => negb (v =? a_get (ds (factors g) lvl) c (add3 lo p))
+          | Uninit => true
+          end
+      | None => false
+      end
+  | _ => false
+  end.
+
+Lemma refute_check_sound : forall ds g lvl k c p, refute_check ds g lvl k c p = true ->
+  exists chunks, tile_level ds g lvl = Ok chunks /\
+                 ~ Forall (chunk_is_restriction ds g lvl) chunks.
+Proof.
+  intros ds g lvl k c p H. unfold refute_check in H.
+  destruct (tile_level ds g lvl) as [chunks| | | | | |kk]; try discriminate.
+  exists chunks. split; [reflexivity|]. intro HF.
+  destruct (nth_error chunks k) as [[[lo hi] buf]|] eqn:Hn; [|discriminate].
+  rewrite Forall_forall in HF. specialize (HF _ (nth_error_In _ _ Hn)). cbn in HF.
+  destruct HF as [idx [_ [_ [_ Hv]]]].
+  rewrite !andb_true_iff in H. destruct H as [[[Hb H0] H1] Hw].
+  apply Z.leb_le in H0. apply Z.ltb_lt in H1.
+  rewrite in_box_spec in Hb.
+  assert (Hp : forall a, 0 <= get3 a p < get3 a (sub3 hi lo)).
+  { intro a. specialize (Hb a). replace (get3 a (0, 0, 0)) with 0 in Hb by (destruct a; reflexivity). lia. }
+  rewrite (Hv c p (conj H0 H1) Hp) in Hw. rewrite Z.eqb_refl in Hw. discriminate.
+Qed.
+
+(* the witness class: generator chunk sizes (8,2,2) -> (8,4,4) on sizes
+   (9,5,1) -> (5,3,1); along y the old chunk equals the factor (half chunk 1)
+   and the new level has 3 rows in one new chunk *)
+Definition witness_geom : geom :=
+  {| g_os := (9, 5, 1); g_ns := (5, 3, 1); g_oc := (8, 2, 2); g_nc := (8, 4, 4); g_ch := 1 |}.
+Definition witness_level : arr := arr_of_list 1 (9, 5, 1) (levels 45).
+
+Lemma tiling_refuted_stride :
+  tiling_guard witness_geom = false /\ stretch_class witness_geom = true /\
+  geom_pos witness_geom = true /\ sizes_ok witness_geom = true /\
+  a_sh witness_level = g_os witness_geom /\ a_c witness_level = g_ch witness_geom /\
+  exists chunks, tile_level ds_stride witness_geom witness_level = Ok chunks /\
+                 ~ Forall (chunk_is_restriction ds_stride witness_geom witness_level) chunks.
+Proof.
+  repeat split; try (vm_compute; reflexivity).
+  apply (refute_check_sound ds_stride witness_geom witness_level 0%nat 0 (0, 2, 0)).
+  vm_compute. reflexivity.
+Qed.
+
+Lemma tiling_refuted_avg :
+  exists chunks, tile_level ds_avg witness_geom witness_level = Ok chunks /\
+                 ~ Forall (chunk_is_restriction ds_avg witness_geom witness_level) chunks.
+Proof.
+  apply (refute_check_sound ds_avg witness_geom witness_level 0%nat 0 (0, 2, 0)).
+  vm_compute. reflexivity.
+Qed.
+
+(* non-vacuity of the hypotheses of tiling_exact / tiling_sound_on_guard *)
+Example compat_example :
+  compat {| g_os := (9, 5, 3); g_ns := (5, 5, 2); g_oc := (4, 2, 2); g_nc := (4, 2, 1); g_ch := 2 |} = true.
+Proof. vm_compute. reflexivity. Qed.
+
+Example guard_not_compat_example :
+  let g := {| g_os := (20, 5, 3); g_ns := (10, 5, 3); g_oc := (4, 2, 2); g_nc := (8, 2, 2); g_ch := 1 |} in
+  tiling_guard g = true /\ compat g = false.
+Proof. vm_compute. split; reflexivity. Qed.
